@@ -2,6 +2,7 @@
 C17 — non-vacuity: concrete host trees that satisfy the hypotheses of the property theorems.
 -/
 import ArvVerif.Props.C17
+set_option linter.unusedSimpArgs false
 namespace ArvVerif.C17
 
 /-- output directory with a file, a directory with a file, an empty directory, a relative link to a
@@ -93,6 +94,39 @@ example : Shows xH xC ["ld", "b"] ["out", "d", "b"] :=
     (by decide) ⟨.file [3], by decide⟩ (by decide) (by decide)
 
 example : fuelBound xH xC ≤ 100000 := by decide
+
+/-! ### mounted collections -/
+
+/-- a collection mounted beneath the output path at `/out/m`, another one at `/mnt/c`, and a link
+`lc -> /mnt/c/sub` -/
+def xMH : Host := [(["o"], .dir), (["o", "m"], .dir), (["o", "lc"], .link true ["mnt", "c", "sub"])]
+def xMC : Cfg :=
+  { ctrOut := ["out"], hostOut := ["o"],
+    mounts := [(["out"], { kind := "tmp" }),
+               (["out", "m"], { kind := "collection", coll := some [([], "f", [1])] }),
+               (["mnt", "c"], { kind := "collection", coll := some [([], "g", [2]), (["sub"], "z", [3]), (["sub2"], "w", [4])] })],
+    secrets := [] }
+
+theorem xMH_scan : scan xMH xMC 60 =
+    .ok { dirs := [], files := [], frags := [(["m", "f"], some [1]), (["lc", "z"], some [3])] } := by
+  have n0 : namei xMH [] ["o"] 0 = .found ["o"] .dir := by simp [namei, xMH, Host.get]
+  have n1 : namei xMH [] ["o", "lc"] 0 = .found ["o", "lc"] (.link true ["mnt", "c", "sub"]) := by
+    simp [namei, xMH, Host.get]
+  have c0 : xMH.children ["o"] = ["m", "lc"] := by decide
+  have e1 : sortNames ["m", "lc"] = ["lc", "m"] := by decide
+  simp [scan, walk, xMC, srcMount, underSecret, rootLen, limitFollowSymlinks, belowMaxSymlinks, Res.bind,
+    n0, n1, c0, e1, skipMount, Cfg.mount, copyRegular, Plan.addDir, Plan.addKeep, Plan.addFile, Plan.addFrags,
+    extract, cleanRel, cleanRelStep]
+
+/-- the link's extract is what `fragOf` names for the jump to `/mnt/c/sub` at `/lc` -/
+example : fragOf xMC ["lc"] ["mnt", "c", "sub"] = [(["lc", "z"], some [3])] := by
+  simp [fragOf, xMC, srcMount, underSecret, rootLen, extract, cleanRel, cleanRelStep]
+
+example : Jumps xMH xMC ["lc"] ["mnt", "c", "sub"] :=
+  Jumps.link (d := ["lc"]) (s := ["out", "lc"]) (a := true) (t := ["mnt", "c", "sub"])
+    (Shows.child (d := []) (s := ["out"]) (c := "lc") Shows.root (by decide)
+      ⟨.link true ["mnt", "c", "sub"], by decide⟩ (by decide) (by decide))
+    (by decide)
 
 /-! ### failing trees -/
 
